@@ -13,7 +13,7 @@ import verde as vd
 from moment import MomentGridder
 
 ID = "C12"
-TRANSLATED = "score"       # Gen/Score.lean (select, fit_score, the cross_val_score loop) is regenerated from /repo and bridged to the model in Props/C12.lean
+TRANSLATED = "modelsel"   # Gen/Score.lean (select, fit_score, the cross_val_score loop) and Gen/ModelSel.lean (SplineCV.fit selection, train_test_split) are regenerated from /repo and bridged to the model in Props/C12.lean
 FILES = ["verde/model_selection.py", "verde/base/utils.py", "verde/base/base_classes.py", "verde/spline.py", "verde/utils.py"]
 RULE = ("corpus + seeded datasets (scalar and 2-3 component, weighted or not, 1-D/2-D arrays) x cross-validators {KFold, shuffled KFold, ShuffleSplit, "
         "BlockKFold, BlockShuffleSplit} x scorers {default, r2, neg MSE, neg MAE}; each case runs cross_val_score serially AND with delayed=True under "
